@@ -125,12 +125,16 @@ def gen_case(rng, n_ops=None, invalid_rate=0.15, pf_level=True):
             a = rng.choice(list(quotes)) if rng.random() < 0.97 else 'UUU'
             cur = pfs.get(pid, {}).get('held', {}).get(a, 0) + sum(q for (x, q) in pfs.get(pid, {}).get('pend', []) if x == a)
             r = rng.random()
-            if cur != 0 and r < 0.25:
+            if abs(cur) >= 10 ** 5 and r < 0.5:
+                q = -cur + rng.choice([1, 2, 3, -1, -2])            # a large holding cut to a residual of a few shares
+            elif cur != 0 and r < 0.25:
                 q = -cur                                            # close to exactly zero
             elif cur != 0 and r < 0.45:
                 q = -cur - (1 if cur > 0 else -1) * rng.choice([1, 7, 50])   # flip through zero in one fill
             else:
                 q = hv(rng, rng.choice([1, -1]) * rng.choice([1, 3, 7, 10, 33, 100, 1000]), 'int')
+                if rng.random() < 0.04:
+                    q = rng.choice([1, -1]) * rng.choice([10 ** 5, 250000, 10 ** 6])
             ops.append(['submit', pid, a, int(q)])
             if pid in pfs and a != 'UUU':
                 pfs[pid]['pend'].append((a, q))
@@ -155,7 +159,7 @@ def gen_case(rng, n_ops=None, invalid_rate=0.15, pf_level=True):
                     p['pend'] = []
         elif k < 0.93:
             what = rng.choice(['pfcash', 'pfmv', 'pfeq', 'pfdict', 'cash'])
-            arg = rng.choice(['USD', 'GBP', 'XXX', 'JPY']) if what == 'cash' else pid
+            arg = rng.choice(['USD', 'GBP', 'XXX', 'JPY']) if what == 'cash' else (pid if rng.random() < 0.7 else '9')
             ops.append(['q', what, arg])
         else:
             # portfolio-level API, called directly on broker.portfolios[pid]
